@@ -224,6 +224,43 @@ def member(rng, short=None):
     return "1 U.S. 1"
 
 
+_midpage = {}
+
+
+def midpage_member(rng, short=True):
+    """A member of a pattern whose matched text continues after the page group
+    ('15 at 55 (La.App. 4 Cir. 8/2/17)', '2015-Ohio-1234' style templates)."""
+    from vmon.rxgen import sample
+    key = bool(short)
+    if key not in _midpage:
+        found = []
+        r0 = __import__("random").Random(4321)
+        for e in DB.cit_extractors:
+            if bool(e.extra["short"]) != key or not (e.regex.startswith(PRE) and e.regex.endswith(POST)):
+                continue
+            body = e.regex[len(PRE):-len(POST)]
+            try:
+                rx = re.compile(body, e.flags)
+                core = sample(body, r0, e.flags, maxrep=2)
+            except Exception:
+                continue
+            m = rx.fullmatch(core)
+            if m and "page" in rx.groupindex and m.span("page") != (-1, -1) and m.end("page") < len(core):
+                found.append((e, body, rx))
+        _midpage[key] = found
+    if not _midpage[key]:
+        return member(rng, short)
+    e, body, rx = rng.choice(_midpage[key])
+    for _ in range(6):
+        try:
+            s = sample(body, rng, e.flags, maxrep=2)
+        except Exception:
+            break
+        if rx.fullmatch(s) and "\n" not in s:
+            return s
+    return member(rng, short)
+
+
 _punct_page = {}
 
 
@@ -265,7 +302,7 @@ def punct_page_member(rng, short=True):
 def frag(rng):
     r = rng.random()
     if r < 0.02:
-        m = punct_page_member(rng, short=rng.random() < 0.5)
+        m = (punct_page_member if rng.random() < 0.6 else midpage_member)(rng, short=rng.random() < 0.5)
         return rng.choice(["", name(rng) + ", "]) + m + rng.choice([" because", " and again", ".", "; see", ", 7", " (holding x)", ". Id. at 3"])
     if r < 0.06:
         m = member(rng)
